@@ -324,6 +324,8 @@ typedef struct EGLPNUM_TYPENAME_price_info
 	EGLPNUM_TYPE htrigger;
 	int hineff;
 	char init;
+	int norms_nrows;							/* dimensions the norm arrays were built for */
+	int norms_ncols;
 }
 EGLPNUM_TYPENAME_price_info;
 
